@@ -455,6 +455,257 @@ def claim_error_category(cx0, res, kf):
     res.vacuity.append(("Message classification path", n >= 1))
 
 
+# ----------------------------------------------------------------------------- serializer shapes (C14 / C04)
+
+class Term:
+    """symbolic S-expression term built by the (stubbed) Value constructors"""
+    __slots__ = ("op", "args")
+
+    def __init__(self, op, *args):
+        self.op, self.args = op, args
+
+    def __repr__(self):
+        return "%s(%s)" % (self.op, ", ".join(repr(a) for a in self.args))
+
+
+def term_eq(a, b):
+    if isinstance(a, Term) and isinstance(b, Term):
+        return a.op == b.op and len(a.args) == len(b.args) and all(term_eq(x, y) for x, y in zip(a.args, b.args))
+    if isinstance(a, tuple) and isinstance(b, tuple):
+        return len(a) == len(b) and all(term_eq(x, y) for x, y in zip(a, b))
+    return a is b
+
+
+def ser_stubs(cx, engine):
+    VAL = cx.enums["Value"]
+
+    def unref(st, v):
+        while isinstance(v, Ref):
+            v = engine.load(st, v.addr)
+        return v
+
+    def T(term):
+        return Opaque("Value", "term", {"term": term})
+
+    def term_of(st, v):
+        v = unref(st, v)
+        if isinstance(v, Opaque) and "term" in v.attrs:
+            return v.attrs["term"]
+        if isinstance(v, EnumV) and v.name == "Value":
+            d = K.concrete(v.discr)
+            if d is not None:
+                pay = v.variants.get(d, [])
+                return Term(VAL[d], *[term_of(st, x) if isinstance(unref(st, x), (Opaque, EnumV)) else unref(st, x) for x in pay])
+        return v
+
+    def h_cons(engine, st, fr, callee, argv, m):
+        return T(Term("cons", term_of(st, argv[0]), term_of(st, argv[1])))
+
+    def h_symbol(engine, st, fr, callee, argv, m):
+        return T(Term("symbol", unref(st, argv[0])))
+
+    def h_list(engine, st, fr, callee, argv, m):
+        v = unref(st, argv[0])
+        return T(Term("list", tuple(v.attrs.get("items", ("?",))) if isinstance(v, Opaque) else ("?",)))
+
+    def h_into_box(engine, st, fr, callee, argv, m):
+        v = unref(st, argv[0])
+        return Opaque("Box<[Value]>", "boxed", {"term": Term("items", tuple(v.attrs.get("items", ("?",))) if isinstance(v, Opaque) else ("?",))})
+
+    def h_ser(engine, st, fr, callee, argv, m):
+        n = st.notes.get("nser", 0) + 1
+        st.notes["nser"] = n
+        err = z3.Bool("ser_%d_err" % n)
+        what = unref(st, argv[0])
+        st.events.append(("ser", what, err))
+        return S.mk_result(engine, err, T(Term("ser", what)), Opaque("Error", "ser", {"kind": "ser"}))
+
+    def h_push(engine, st, fr, callee, argv, m):
+        v = unref(st, argv[0])
+        if not (isinstance(v, Opaque) and "items" in v.attrs):
+            raise Unsupported("push onto %r" % (v,))
+        nv = Opaque(v.ty, v.label, {"items": tuple(v.attrs["items"]) + (term_of(st, argv[1]),)})
+        engine.store(st, argv[0].addr, nv)
+        return UnitV()
+
+    def h_newvec(engine, st, fr, callee, argv, m):
+        return Opaque("Vec<Value>", "fresh", {"items": ()})
+
+    def h_take(engine, st, fr, callee, argv, m):
+        cur = engine.load(st, argv[0].addr)
+        engine.store(st, argv[0].addr, EnumV("Option", 0, {}))
+        return cur
+
+    def h_keep(engine, st, fr, callee, argv, m):
+        return argv[0]
+    return [
+        (re.compile(r"^Value::cons::<"), h_cons),
+        (re.compile(r"^Value::symbol::<"), h_symbol),
+        (re.compile(r"^Value::list::<"), h_list),
+        (re.compile(r"^<Vec<Value> as Into<Box<\[Value\]>>>::into$"), h_into_box),
+        (re.compile(r"^(to_value::<|<\w+ as Serialize>::serialize::<)"), h_ser),
+        (re.compile(r"^Vec::<Value>::push$"), h_push),
+        (re.compile(r"^Vec::<Value>::(with_capacity|new)$"), h_newvec),
+        (re.compile(r"^(?:std::option::)?Option::<usize>::map_or_else::<Vec<Value>"), h_newvec),
+        (re.compile(r"^(?:std::option::)?Option::<Value>::take$"), h_take),
+        (re.compile(r"^<&(str|\[u8\]) as Into<Box<(str|\[u8\])>>>::into$"), h_keep),
+    ]
+
+
+def claim_ser_shapes(cx0, res, kf):
+    """Every structural serializer method builds exactly the documented S-expression term from its arguments and the
+    already collected items (arbitrary prefix)."""
+    cx = merged_ctx()
+    VAL = cx.enums["Value"]
+    NULL = Term("Null")
+    confirm = None
+
+    def run(self_ty, method, nargs, self_fields, spec, what):
+        """self_fields: None (unit Serializer by value) or list of (field name, initial value factory)"""
+        fn = find_method(cx, "serde-lexpr/src/value/ser.rs", method, self_ty)
+        if fn is None:
+            res.error = "%s::%s not found" % (self_ty, method)
+            return
+        eng = C.make_engine(cx, [], loop_mode="cut", timeout_s=60, max_paths=2000)
+        eng.stubs = ser_stubs(cx, eng) + S.COMBINATOR_STUBS + S.CORE_STUBS
+        info = {}
+
+        def init(e, st, fr):
+            args = []
+            if self_fields is None:
+                fr.locals[fn.args[0]] = UnitV()
+            else:
+                order = cx.structs.get(self_ty) or [f for f, _ in self_fields]
+                vals = dict((f, mk()) for f, mk in self_fields)
+                agg = Agg("struct", self_ty, [vals[f] for f in order])
+                by_ref = fn.local_ty.get(fn.args[0], "").strip().startswith("&")
+                if by_ref:
+                    st.heap["self"] = agg
+                    fr.locals[fn.args[0]] = Ref(("H", "self"))
+                else:
+                    fr.locals[fn.args[0]] = agg
+                info["order"] = order
+            for i, a in enumerate(fn.args[1:]):
+                ty = fn.local_ty.get(a, "").strip()
+                if ty in INT_TY:
+                    v = e.sym_int(ty, "arg%d" % i)
+                elif ty.startswith("std::option::Option<usize>") or ty.startswith("Option<usize>"):
+                    v = S.mk_option(z3.Bool("len_some"), e.sym_int("usize", "len"))
+                else:
+                    v = Opaque(ty, "arg%d" % (i + 1), {})
+                fr.locals[a] = v
+                args.append(v)
+            info["args"] = args
+            return []
+        terms = eng.explore(fn.name, init)
+        res.absorb(eng)
+        n_ok = 0
+        for t in terms:
+            st = t.state
+            pc = list(st.pc)
+            if t.kind == "PANIC":
+                allowed = info.get("panic_ok")
+                res.must_be_unsat(pc + ([z3.Not(allowed(st))] if allowed else []), "%s: reachable panic `%s`" % (what, t.info.get("msg")), confirm)
+                continue
+            if t.kind != "RETURN":
+                continue
+            kind, payload = K.classify_return(eng, t)
+            sers = [e for e in st.events if e[0] == "ser"]
+            if kind == "err" or (kind == "sym"):
+                # an error must be the error of a nested serialization
+                if not sers:
+                    res.violations.append({"what": "%s: fails although no nested serialization failed" % what, "replayed": None})
+                continue
+            n_ok += 1
+            res.must_be_unsat(pc + [z3.Or(*[e[2] for e in sers])] if sers else pc + [z3.BoolVal(False)], "%s: succeeds although a nested serialization failed" % what, confirm)
+            problem = spec(eng, st, info, payload)
+            if problem:
+                res.violations.append({"what": "%s: %s" % (what, problem), "replayed": None})
+        res.vacuity.append(("%s returns Ok" % what, n_ok > 0))
+
+    def vterm(eng, st, v):
+        while isinstance(v, Ref):
+            v = eng.load(st, v.addr)
+        if isinstance(v, Opaque) and "term" in v.attrs:
+            return v.attrs["term"]
+        if isinstance(v, EnumV) and v.name == "Value":
+            d = K.concrete(v.discr)
+            pay = v.variants.get(d, [])
+            out = []
+            for x in pay:
+                while isinstance(x, Ref):
+                    x = eng.load(st, x.addr)
+                out.append(x.attrs["term"] if isinstance(x, Opaque) and "term" in x.attrs else x)
+            return Term(VAL[d], *out)
+        return v
+
+    def expect(want_fn):
+        def spec(eng, st, info, payload):
+            got = vterm(eng, st, payload)
+            want = want_fn(info["args"])
+            return None if term_eq(got, want) else "builds %r, documented shape is %r" % (got, want)
+        return spec
+    ser = lambda x: Term("ser", x)  # noqa
+    # ---- Serializer (unit struct, by value)
+    run("Serializer", "serialize_none", 0, None, expect(lambda a: NULL), "serialize_none")
+    run("Serializer", "serialize_unit", 0, None, expect(lambda a: NULL), "serialize_unit")
+    run("Serializer", "serialize_unit_struct", 1, None, expect(lambda a: NULL), "serialize_unit_struct")
+    run("Serializer", "serialize_some", 1, None, expect(lambda a: Term("cons", ser(a[0]), NULL)), "serialize_some")
+    run("Serializer", "serialize_newtype_struct", 2, None, expect(lambda a: ser(a[1])), "serialize_newtype_struct")
+    run("Serializer", "serialize_unit_variant", 3, None, expect(lambda a: Term("symbol", a[2])), "serialize_unit_variant")
+    run("Serializer", "serialize_newtype_variant", 4, None, expect(lambda a: Term("cons", Term("symbol", a[2]), ser(a[3]))), "serialize_newtype_variant")
+
+    # ---- collectors: one element step from an arbitrary prefix, and `end`
+    PRE = Opaque("Value", "items collected so far", {})
+
+    def vec():
+        return Opaque("Vec<Value>", "collected", {"items": (PRE,)})
+
+    def items_after(eng, st, info, field):
+        selfv = st.heap.get("self")
+        idx = info["order"].index(field)
+        v = selfv.fields[idx]
+        return tuple(v.attrs.get("items", ())) if isinstance(v, Opaque) else None
+
+    def step(field, want_item):
+        def spec(eng, st, info, payload):
+            got = items_after(eng, st, info, field)
+            want = (PRE, want_item(info["args"]))
+            return None if term_eq(got, want) else "collects %r, documented is previous items + %r" % (got, want[1])
+        return spec
+    name = Opaque("&str", "variant name", {})
+    run("SerializeList", "serialize_element", 1, [("items", vec)], step("items", lambda a: ser(a[0])), "SerializeSeq::serialize_element")
+    run("SerializeList", "end", 0, [("items", vec)], expect(lambda a: Term("list", (PRE,))), "SerializeSeq::end")
+    run("SerializeVector", "serialize_element", 1, [("items", vec)], step("items", lambda a: ser(a[0])), "SerializeTuple::serialize_element")
+    run("SerializeVector", "serialize_field", 1, [("items", vec)], step("items", lambda a: ser(a[0])), "SerializeTupleStruct::serialize_field")
+    run("SerializeVector", "end", 0, [("items", vec)], expect(lambda a: Term("Vector", Term("items", (PRE,)))), "SerializeTuple::end")
+    run("SerializeTupleVariant", "serialize_field", 1, [("name", lambda: name), ("items", vec)], step("items", lambda a: ser(a[0])), "SerializeTupleVariant::serialize_field")
+    run("SerializeTupleVariant", "end", 0, [("name", lambda: name), ("items", vec)],
+        expect(lambda a: Term("cons", Term("symbol", name), Term("list", (PRE,)))), "SerializeTupleVariant::end")
+    run("SerializeStruct", "serialize_field", 2, [("fields", vec)], step("fields", lambda a: Term("cons", Term("symbol", a[0]), ser(a[1]))), "SerializeStruct::serialize_field")
+    run("SerializeStruct", "end", 0, [("fields", vec)], expect(lambda a: Term("list", (PRE,))), "SerializeStruct::end")
+    run("SerializeStructVariant", "serialize_field", 2, [("name", lambda: name), ("fields", vec)],
+        step("fields", lambda a: Term("cons", Term("symbol", a[0]), ser(a[1]))), "SerializeStructVariant::serialize_field")
+    run("SerializeStructVariant", "end", 0, [("name", lambda: name), ("fields", vec)],
+        expect(lambda a: Term("cons", Term("symbol", name), Term("list", (PRE,)))), "SerializeStructVariant::end")
+    none = lambda: EnumV("Option", 0, {})  # noqa
+    run("SerializeMap", "serialize_entry", 2, [("entries", vec), ("next_key", none)], step("entries", lambda a: Term("cons", ser(a[0]), ser(a[1]))), "SerializeMap::serialize_entry")
+    run("SerializeMap", "end", 0, [("entries", vec), ("next_key", none)], expect(lambda a: Term("list", (PRE,))), "SerializeMap::end")
+    KEY = Opaque("Value", "term", {"term": Term("ser", Opaque("K", "pending key", {}))})
+    some_key = lambda: EnumV("Option", 1, {1: [KEY]})  # noqa
+    run("SerializeMap", "serialize_value", 1, [("entries", vec), ("next_key", some_key)],
+        step("entries", lambda a: Term("cons", KEY.attrs["term"], ser(a[0]))), "SerializeMap::serialize_value")
+
+    def key_step(eng, st, info, payload):
+        selfv = st.heap.get("self")
+        nk = selfv.fields[info["order"].index("next_key")]
+        if not (isinstance(nk, EnumV) and K.concrete(nk.discr) == 1):
+            return "serialize_key does not remember the key"
+        got = vterm(eng, st, nk.variants[1][0])
+        return None if term_eq(got, ser(info["args"][0])) else "remembers %r instead of the serialized key" % (got,)
+    run("SerializeMap", "serialize_key", 1, [("entries", vec), ("next_key", none)], key_step, "SerializeMap::serialize_key")
+
+
 CLAIMS = [
     Claim("c14_de_kind_tables", "C14", "quick", claim_de_tables,
           "every deserialize_* method, for an arbitrary input value: calls exactly the documented visitor method for the "
@@ -474,6 +725,14 @@ CLAIMS = [
           "serialize_{i8..u64,f32,f64,bool,char}: the resulting Value holds the same mathematical integer (PosInt for >= 0, "
           "NegInt below), the exactly widened float, the same bool / char",
           "every value of each scalar type", configs=("fast",), also=("C14", "C18")),
+    Claim("c14_ser_shapes", "C14", "quick", claim_ser_shapes,
+          "every structural serializer method builds exactly the documented term from its arguments: None / unit / unit struct "
+          "-> (), Some(x) -> (x), newtype struct -> content, unit variant -> symbol, newtype variant -> (name . payload); the "
+          "collectors append exactly one serialized item per call (struct fields as (symbol . value), map entries as "
+          "(key . value)) and end with a proper list, a vector (tuples), or (name item...) / (name (field . value)...) for "
+          "variants; an error is returned iff a nested serialization failed",
+          "arbitrary already-collected prefix (one-step induction over any number of items), abstract nested serializations",
+          configs=("fast",), also=("C04",)),
     Claim("c18_error_category", "C18", "quick", claim_error_category,
           "serde_lexpr::Error::classify maps message errors (all the value deserializer produces) to Category::Data and I/O errors to Io",
           "all ErrorImpl variants", configs=("fast",)),
